@@ -118,8 +118,9 @@ func (m *Module) Evaluation(
 	nextFrame := m.getNextFrame(ctx)
 	class := nextT.ToString()
 
-	// `module Outer::` - a name with an empty component is no name
-	if strings.HasSuffix(class, "::") || strings.Contains(class, ":::") {
+	// `module Outer::`, `module :sym` - a name with an empty component or a colon
+	// at either end is no name
+	if strings.HasPrefix(class, ":") || strings.HasSuffix(class, ":") || strings.Contains(class, ":::") {
 		return fmt.Errorf("syntax error: '%s' is not a module name", class)
 	}
 
